@@ -68,7 +68,11 @@ def _plan(tier, seed):
 GRID_SPEC = wbspec.spec(wbspec.sheet('S1', {
     'A1': 1.5, 'B1': 0,
     'C1': '=ROUND(A1,B1)', 'D1': '=ROUNDUP(A1,B1)', 'E1': '=ROUNDDOWN(A1,B1)', 'F1': '=A1%',
-    'G1': '=ROUND(A1;B1)', 'H1': '=ROUNDUP(A1)', 'I1': '=ROUNDDOWN(A1)'}))
+    'G1': '=ROUND(A1;B1)', 'H1': '=ROUNDUP(A1)', 'I1': '=ROUNDDOWN(A1)',
+    # the digit count arriving in other ways than as an int in a cell: a blank cell (Z9 is never written: blank counts as 0), a whole
+    # float made by arithmetic or by another function, the count of another function
+    'J1': '=ROUND(A1,Z9)', 'K1': '=ROUNDUP(A1,Z9)', 'L1': '=ROUNDDOWN(A1,Z9)', 'M1': '=ROUND(A1,B1*1.0)', 'N1': '=ROUNDUP(A1,B1/1)',
+    'O1': '=ROUNDDOWN(A1,ROUND(B1,0))', 'P1': '=ROUND(A1,COUNT(B1:B1)+B1-1)', 'Q1': '=ROUNDUP(A1,MAX(B1,-99))', 'R1': '=ROUNDDOWN(A1,SUM(B1,Z9))'}))
 FCELL = {'ROUND': 'C1', 'ROUNDUP': 'D1', 'ROUNDDOWN': 'E1'}
 
 
@@ -144,6 +148,12 @@ def run_grid(shard, ctx):
         for cell, fn, n in (('G1', 'ROUND', 2), ('H1', 'ROUNDUP', 0), ('I1', 'ROUNDDOWN', 0)):
             ov = [(0, 'A1', x), (0, 'B1', n)]
             _check(r, fn, text, n, book.value(0, cell, ov), 'spelling:' + cell, mon)
+        for cell, fn, blank in (('J1', 'ROUND', True), ('K1', 'ROUNDUP', True), ('L1', 'ROUNDDOWN', True), ('M1', 'ROUND', False), ('N1', 'ROUNDUP', False),
+                                ('O1', 'ROUNDDOWN', False), ('P1', 'ROUND', False), ('Q1', 'ROUNDUP', False), ('R1', 'ROUNDDOWN', False)):
+            for n in ((0,) if blank else (2, 0, -1, 1)):
+                ov = [(0, 'A1', x)] + ([] if blank else [(0, 'B1', n)])
+                r.count('digit_count_supplied_indirectly')
+                _check(r, fn, text, n, book.value(0, cell, ov), 'digits-via:' + cell, mon)
     r.nontrivial_disjoint += nt
     r.sample({'text': f'{sign}{ip}.{fl[len(fl) // 2]:04d}', 'digits': DIGITS, 'functions': list(FCELL)})
 
